@@ -20,6 +20,14 @@ var vC16Functions = []string{
 	`(defn f [#p #r] (+ (force #r) (force #p)))`,          // two lazy, forced in reverse order
 	`(defn f [q & rest] (list q rest))`,                   // variadic tail is strict
 	`(defn f [#p & rest] (begin (t 555) (list (force #p) rest)))`, // lazy then variadic
+	// the function calls itself with an observable argument in the lazy
+	// position: in tail position (compiled as a jump), not in tail position,
+	// under a let, and handing the source back
+	`(def cnt 0) (defn f [#p q] (cond (< cnt 2) (begin (set cnt (+ cnt 1)) (f (t (+ q cnt)) q)) (force #p)))`,
+	`(def cnt 0) (defn f [#p q] (cond (< cnt 2) (begin (set cnt (+ cnt 1)) (+ 0 (f (t (+ q cnt)) q))) (force #p)))`,
+	`(def cnt 0) (defn f [#p q] (let [w 1] (cond (< cnt 2) (begin (set cnt (+ cnt w)) (f (t (+ q w)) q)) q)))`,
+	`(def cnt 0) (defn f [#p q] (cond (< cnt 1) (begin (set cnt (+ cnt 1)) (f (t 5) q)) (substitute #p)))`,
+	`(def cnt 0) (defn f [q #p] (cond (< cnt 2) (begin (set cnt (+ cnt 1)) (f (t cnt) (t (+ 100 cnt)))) (+ q (force #p))))`,
 }
 
 var vC16Routes = []string{
